@@ -117,6 +117,27 @@ def gen_history(rng, i, nprocs, EC):
                 exp[l] = ((0, None), "enddef")
                 st["mode"] = "C"
                 st["enddef_once"] = True
+            elif st["mode"] == "I":
+                # independent data mode: the library opens a second MPI file handle of its own on first use, which
+                # close/abort (possibly while still in this mode) has to release as well
+                k = rng.random()
+                if k < 0.4 and not st.get("ro"):
+                    vals = [rng.randint(-1000, 1000) + slot * 100000 for _ in range(4)]
+                    l = sc.add("*", "put", f=slot, v=0, form="var", mt="int", coll=0, data=I4(*vals))
+                    exp[l] = ((0, None), "independent put")
+                    st["val"] = None          # every rank wrote the same values, but without synchronisation: not read back
+                elif k < 0.6:
+                    l = sc.add("*", "get", f=slot, v=0, form="var", mt="int", coll=0, nbytes=16)
+                    exp[l] = ((0, None), "independent read")
+                elif k < 0.85:
+                    l = sc.add("*", "end_indep", f=slot)
+                    exp[l] = ((0, None), "end_indep_data")
+                    st["mode"] = "C"
+                feats.add("indep")
+            elif rng.random() < 0.2 and not st["pending"]:
+                l = sc.add("*", "begin_indep", f=slot)
+                exp[l] = ((0, None), "begin_indep_data")
+                st["mode"] = "I"
             elif st.get("ro"):
                 if st["val"] is not None or True:
                     l = sc.add("*", "get", f=slot, v=0, form="var", mt="int", coll=1, nbytes=16)
